@@ -155,6 +155,41 @@ theorem firstDev_cache_history_dependent :
     (2, .call (Version.mk' 0 [1, 0, 0] none none none none))], 2, Version.mk' 0 [1, 0, 0] none none none none,
    (Version.mk' 0 [1, 0] none none none none).firstDevrelease, List.mem_cons_self, by decide⟩
 
+/-- **The wildcard spelling cache** (seeded class: `functools.cache` on `_single_wildcard_range_string` keyed by the
+`Version` pair).  `1.0.post1 == 1.0.0.post1` with equal hash, but the printed wildcard keeps the spelling of `first`
+(`1.0.post1.*` vs `1.0.0.post1.*`, VPrint model of `_single_wildcard_range_string`): `Congr` FAILS … -/
+theorem wildcard_text_cache_not_congruent (hashOf : Version.Key × Version.Key → Nat) :
+    ¬ (wildcardSpec hashOf).Congr := by
+  intro h
+  have h1 := h (Version.mk' 0 [1, 0] none (some ⟨.post, 1⟩) none none, Version.mk' 0 [1, 0] none (some ⟨.post, 2⟩) none none)
+    (Version.mk' 0 [1, 0, 0] none (some ⟨.post, 1⟩) none none, Version.mk' 0 [1, 0] none (some ⟨.post, 2⟩) none none)
+    (by
+      have hk : (Version.mk' 0 [1, 0] none (some ⟨.post, 1⟩) none none).key =
+          (Version.mk' 0 [1, 0, 0] none (some ⟨.post, 1⟩) none none).key := by rfl
+      have he : Version.eqv (Version.mk' 0 [1, 0] none (some ⟨.post, 1⟩) none none)
+          (Version.mk' 0 [1, 0, 0] none (some ⟨.post, 1⟩) none none) = true := by decide
+      have he2 : Version.eqv (Version.mk' 0 [1, 0] none (some ⟨.post, 2⟩) none none)
+          (Version.mk' 0 [1, 0] none (some ⟨.post, 2⟩) none none) = true := by decide
+      simp [MemoSpec.hit, wildcardSpec, hk, he, he2])
+  have h2 : singleWildcardRangeString (Version.mk' 0 [1, 0] none (some ⟨.post, 1⟩) none none)
+      (Version.mk' 0 [1, 0] none (some ⟨.post, 2⟩) none none) = .ok "1.0.post1.*" := by rfl
+  have h3 : singleWildcardRangeString (Version.mk' 0 [1, 0, 0] none (some ⟨.post, 1⟩) none none)
+      (Version.mk' 0 [1, 0] none (some ⟨.post, 2⟩) none none) = .ok "1.0.0.post1.*" := by rfl
+  simp only [wildcardSpec, h2, h3] at h1
+  simp at h1
+
+/-- … and the schedule that shows it: after `==1.0.post1.*` was printed, printing `==1.0.0.post1.*` through the cache
+yields the other spelling. -/
+theorem wildcard_text_cache_history_dependent :
+    ∃ (sched : List (Tid × MAct (Version × Version))) (t : Tid) (k : Version × Version) (r : String),
+      (t, k, .ok r) ∈ (MState.run (wildcardSpec (fun _ => 0)) MState.init sched).log ∧
+      singleWildcardRangeString k.1 k.2 = .ok "1.0.0.post1.*" ∧ r = "1.0.post1.*" :=
+  ⟨[(1, .call (Version.mk' 0 [1, 0] none (some ⟨.post, 1⟩) none none, Version.mk' 0 [1, 0] none (some ⟨.post, 2⟩) none none)),
+    (1, .compute), (1, .store),
+    (2, .call (Version.mk' 0 [1, 0, 0] none (some ⟨.post, 1⟩) none none, Version.mk' 0 [1, 0] none (some ⟨.post, 2⟩) none none))],
+   2, (Version.mk' 0 [1, 0, 0] none (some ⟨.post, 1⟩) none none, Version.mk' 0 [1, 0] none (some ⟨.post, 2⟩) none none),
+   "1.0.post1.*", List.mem_cons_self, by rfl, rfl⟩
+
 /-! ### (H1) characterised for the concrete simplifier -/
 
 /-- **Stack irrelevance.**  Run `cnf` with the frames the calling thread already has (`frn`) kept apart from the frames
@@ -285,6 +320,23 @@ example :
     proj 1 s = (emit (· == ·) [] c1).1 ∧
     (GState.run (· == ·) GState.init s).stacks = [(2, [7, 8]), (1, [])] ∧
     outsOf 1 (GState.run (· == ·) GState.init s).outs = [.pushed, .raised, .popped] := ⟨rfl, rfl, rfl⟩
+
+/-- **shared_stack_interferes** — the seeded class "one recursion stack for all threads" (closure-level list, class
+attribute of a `threading.local` subclass, thread id read once at import; machine `GState.runShared`): a concrete
+2-thread schedule of well-bracketed code in which thread 2's call raises RecursionError although its solo run does not
+— thread 1 is inside `intersection(7)` when thread 2 enters `intersection(7)`.  With per-thread lists
+(`stack_noninterference`) this cannot happen. -/
+theorem shared_stack_interferes :
+    ∃ (sched : List (Tid × GAct Nat)) (c1 c2 : Code Nat),
+      proj 1 sched = (emit (· == ·) [] c1).1 ∧ proj 2 sched = (emit (· == ·) [] c2).1 ∧
+      -- solo, and in the per-thread machine, thread 2 pushes
+      (runT (· == ·) [] (proj 2 sched)).2 = [.pushed, .popped] ∧
+      outsOf 2 (GState.run (· == ·) GState.init sched).outs = [.pushed, .popped] ∧
+      -- with the shared list it raises, and then even pops thread 1's frame
+      outsOf 2 (GState.runShared (· == ·) GState.init sched).outs = [.raised, .popped] ∧
+      outsOf 1 (GState.runShared (· == ·) GState.init sched).outs = [.pushed, .popEmpty] :=
+  ⟨[(1, .enter 7), (2, .enter 7), (2, .exit), (1, .exit)], .call 7 .done .done, .call 7 .done .done,
+   by rfl, by rfl, by rfl, by rfl, by rfl, by rfl⟩
 
 /-! ### lazily built parser -/
 
